@@ -305,6 +305,28 @@ def h07b2_pre(p1, l1, p2, l2, ttl, ttl2):
     return 0 <= p1 <= 65535 and 0 <= p2 <= 65535 and 0 <= l1 <= 255 and 0 <= l2 <= 255 and 0 <= ttl <= 2**31 - 1 and 0 <= ttl2 <= 2**31 - 1
 
 
+def h07b3(t1: int, t2: int, t3: int, same: bool) -> bool:
+    """add(rd, ttl) on singleton and ordinary sets: TTL = minimum of every TTL merged in; singleton keeps only the newest record."""
+    kind = S("kind")
+    pool = POOLS[kind]
+    rds = dns.rdataset.Rdataset(IN, dns.rdatatype.from_text(kind))
+    rds.add(pool[0], t1)
+    rds.add(pool[0] if same else pool[1], t2)
+    rds.add(pool[1], t3)
+    hit("added")
+    m = t1 if t1 <= t2 else t2
+    m = m if m <= t3 else t3
+    if rds.ttl != m:
+        return False
+    if kind in SINGLETON:
+        return len(rds) == 1 and rds[0] == pool[1]
+    return len(rds) == (2 if EQCLASS[kind][0] != EQCLASS[kind][1] else 1)
+
+
+def h07b3_pre(t1, t2, t3, same):
+    return all([0 <= t <= 2**31 - 1 for t in (t1, t2, t3)])
+
+
 # ---------------------------------------------------------------- H07c Rdata equality / order; immutability
 
 def canon_mx(buf):
@@ -405,6 +427,9 @@ HARNESSES = [
             encodes=["dns.rdataset.Rdataset.add", "dns.rdata.Rdata.__eq__", "dns.rdata.Rdata.to_digestable", "dns.set.Set.add", "dns.rrset.RRset.__eq__"],
             bound="two MX records with symbolic preference (16 bit) and one-octet target label (all 256 values), symbolic TTLs",
             stubs=["E1", "E6"], outside="longer names"),
+    Harness("H07b3", h07b3, h07b3_pre, lambda tier: [{"kind": k, "_timeout": 300} for k in ("CNAME", "SOA", "A", "MX")], kind="universal over TTLs",
+            encodes=["dns.rdataset.Rdataset.add", "dns.rdataset.Rdataset.update_ttl"], bound="three add(rd, ttl) calls with symbolic TTLs on singleton (CNAME, SOA) and ordinary (A, MX) sets",
+            stubs=["E6"], outside=""),
     Harness("H07c", h07c, h07c_pre, lambda tier: [{"t": int(dns.rdatatype.from_text(n)), "name": n, "max": m + (0 if tier == "quick" else 1),
                                                      "_timeout": 900, "_path_timeout": 60} for n, m in (("MX", 5), ("TXT", 3), ("NSAP", 2))],
             kind="universal",
